@@ -243,6 +243,11 @@ class Taint:
             b = strip_cast(e.value)
             if isinstance(b, ast.Name) and b.id in self.sources and e.attr in SAFE_EVENT_ATTRS:
                 return U
+            if e.attr in PEER_COLUMNS:
+                # a column of the qrscp index that add_instance() fills from the peer's data set as it came (the
+                # keys are matched against C-FIND identifiers, so they are stored raw); only `filename` holds the
+                # sanitised name the instance was written under
+                return V("T", why=f"database column {e.attr}, stored raw from the peer's data set")
             return self._derived(self.value(e.value))
         if isinstance(e, ast.Subscript):
             b = self.value(e.value)
@@ -357,10 +362,20 @@ class Taint:
             return V("T", why=next(p.why for p in parts if p.kind == "T"))
         if all(p.kind == "U" for p in parts):
             return V("U", dots=parts[-1].dots)
+        # a peer-influenced component that is not the last one is a *directory* name: separator-free is not enough
+        # there, it must not be '..' either (the components after it are then created outside the base)
+        for p in parts[:-1]:
+            if p.kind == "C" and p.dots:
+                return V("T", why=f"a peer-influenced directory component that may be '..' ({p.why})")
+            if p.kind == "P" and p.dots:
+                return V("T", why="a base that may end in a peer-chosen '..'")
         if parts[0].kind in ("U", "P"):
             return V("P", dots=parts[-1].dots and parts[-1].kind == "C", why="join(base, separator-free name)")
         # first component peer-influenced: relative to the working directory
         return V("P", dots=parts[-1].dots, why="relative join of separator-free names")
+
+
+PEER_COLUMNS: set[str] = set()
 
 
 def join(a: V, b: V) -> V:
@@ -429,6 +444,16 @@ def run(repo: Repo, rep: Report, tier: str) -> None:
     rep.rule("sanitiser", "a re.sub used on peer data before a sink is a single negated character class whose complement and replacement exclude '/', '\\', ':' and NUL")
     n_funcs = n_sinks = n_handlers = n_san = 0
     mods = [(n, m) for n, m in sorted(repo.modules.items()) if n.startswith("pynetdicom.apps.") and ".tests" not in n]
+    # the raw (peer-filled) columns of the qrscp index: the values of db._TRANSLATION plus the two UID columns
+    PEER_COLUMNS.clear()
+    try:
+        from ..consteval import Evaluator
+        tr_ = Evaluator(repo, repo.mod("apps.qrscp.db")).name("_TRANSLATION")
+        PEER_COLUMNS.update(v for v in tr_.values() if isinstance(v, str))
+    except Exception:
+        pass
+    PEER_COLUMNS.update({"sop_instance_uid", "sop_class_uid", "transfer_syntax_uid", "study_instance_uid", "series_instance_uid", "patient_id"})
+    rep.counters["raw database columns treated as peer data"] = len(PEER_COLUMNS)
     rep.floor("app modules", len(mods), 8)
     tainted_sinks = 0
     for mname, m in mods:
@@ -465,6 +490,37 @@ def run(repo: Repo, rep: Report, tier: str) -> None:
                         rep.fail("path-taint", fq, st, f"{desc}: the peer-influenced name in {norm(a)!r} may be '', '.' or '..', which this sink would act on", mod=m, node=c)
                     else:
                         rep.ok("path-taint", f"{fq} :: {norm(st)[:70]}", f"{desc}: path class {v}")
+    # a directory handed on to a function that writes into it: the fields of a parameter that sink functions use as
+    # the base of their paths (args.output_directory ...) are themselves sinks for whoever assigns them from peer data
+    base_fields = set()
+    for mname, m in mods:
+        for fn in [f for f in ast.walk(m.tree) if isinstance(f, (ast.FunctionDef, ast.AsyncFunctionDef)) and sinks_in(f)]:
+            params = {a.arg for a in fn.args.args + fn.args.kwonlyargs} - {"event", "self"}
+            for c in walk_no_nested(fn):
+                if isinstance(c, ast.Call) and (dotted(c.func) or "") in ("os.path.join", "Path", "pathlib.Path", "os.path.abspath", "os.makedirs"):
+                    for a in ast.walk(c):
+                        if isinstance(a, ast.Attribute) and isinstance(a.value, ast.Name) and a.value.id in params:
+                            base_fields.add(a.attr)
+    rep.counters["configuration fields used as the base of written paths"] = len(base_fields)
+    n_dir = 0
+    for mname, m in mods:
+        short = mname.replace("pynetdicom.", "")
+        for fn in [f for f in ast.walk(m.tree) if isinstance(f, (ast.FunctionDef, ast.AsyncFunctionDef)) and any(a.arg == "event" for a in f.args.args)]:
+            wr = [s_ for s_ in walk_no_nested(fn) if isinstance(s_, ast.Assign) and any(isinstance(t_, ast.Attribute) and t_.attr in base_fields for t_ in s_.targets)]
+            wr += [c_ for c_ in walk_no_nested(fn) if isinstance(c_, ast.Call) and dotted(c_.func) == "setattr" and len(c_.args) == 3 and isinstance(c_.args[1], ast.Constant) and c_.args[1].value in base_fields]
+            if not wr:
+                continue
+            hs = helper_summaries(m.tree)
+            helpers = {name: (bp, [a.arg for a in next(f for f in m.tree.body if isinstance(f, ast.FunctionDef) and f.name == name).args.args]) for name, bp in hs.items()}
+            ta = Taint(fn, {"event"}, helpers)
+            fq = f"{short}.{qualname(fn) or fn.name}"
+            for s_ in wr:
+                n_dir += 1
+                val = s_.value if isinstance(s_, ast.Assign) else s_.args[2]
+                v = ta.value(val)
+                bad = v.kind == "T" or (v.kind in ("C", "P") and v.dots)
+                rep.check(not bad, "path-taint", fq, s_ if isinstance(s_, ast.stmt) else enclosing(s_, (ast.stmt,)), f"the directory handed to the storing code ({norm(val)[:60]}) has a component taken from the peer's data set that {'is not sanitised (' + v.why + ')' if v.kind == 'T' else 'is separator-free but may be `..`'}: the instance is then written outside the configured storage directory (a Study Instance UID of '..' selects the parent directory)", mod=m, node=val)
+    rep.counters["directory fields assigned in handlers"] = n_dir
     rep.floor("functions with write sinks", n_funcs, 4)
     rep.floor("write sinks", n_sinks, 6)
     rep.floor("handlers (event parameter) with write sinks", n_handlers, 2)
